@@ -149,6 +149,11 @@ def run_item(item):
                 res["traces"] += 1
                 res["transitions"] += 2 * N
                 res["extra"]["runs"] += 1
+                # a function set shared by several DeepONet conditions is drawn ONCE per training step (every condition of
+                # the step sees the same input functions), however many conditions use it
+                if any(k_.startswith("pideeponet_r") for k_ in kinds) and w.drift.calls != N:
+                    viol("C07|function-set-draws-per-step", "%s: the shared function set was drawn %d times in %d training steps (%d condition(s) use it)" % (
+                        cfg, w.drift.calls, N, sum(k_.startswith("pideeponet_r") for k_ in kinds)))
                 # every learnable tensor reachable from a training condition is optimised
                 hid = {id(p) for p in handed}
                 missing = [n for n, t in snamed if id(t) not in hid]
